@@ -96,3 +96,10 @@ Print Assumptions C16_no_stack_underflow.
 Theorem C16_parse_total : forall s, parse_sql s <> OutOfFuel /\ ~ table_panic (parse_sql s).
 Proof. exact parse_sql_total. Qed.
 Print Assumptions C16_parse_total.
+
+(* the operator table and the character lists of tokenize()'s inner switch, and the shape of readOp, were
+   read from sql/tokenizer.go on this run (false: the translator could not read them and the model runs on
+   the pinned source's tables) *)
+Theorem C16_lexer_tables_translated : Gen.Lexer.lexer_tables_translated = true.
+Proof. reflexivity. Qed.
+Print Assumptions C16_lexer_tables_translated.
